@@ -416,3 +416,24 @@ func (g G) refName(exotic bool) string {
 	}
 	return ns + g.PickStr(refLeaves, "leaf")
 }
+
+// AddBomb adds a "git bomb": depth levels of trees, each with breadth
+// entries pointing at the level below; the bottom level holds breadth
+// entries of one blob. It returns the top tree.
+func AddBomb(w *World, depth, breadth int, blob *Object, tag string) *Object {
+	var es []TreeEntry
+	for i := 0; i < breadth; i++ {
+		es = append(es, TreeEntry{Mode: 0o100644, Name: fmt.Sprintf("f%03d%s", i, tag), OID: blob.ID})
+	}
+	SortTreeEntries(es)
+	cur := w.Add(NewObject(KTree, EncodeTree(es)))
+	for d := 1; d < depth; d++ {
+		var ds []TreeEntry
+		for i := 0; i < breadth; i++ {
+			ds = append(ds, TreeEntry{Mode: 0o040000, Name: fmt.Sprintf("d%03d%s", i, tag), OID: cur.ID})
+		}
+		SortTreeEntries(ds)
+		cur = w.Add(NewObject(KTree, EncodeTree(ds)))
+	}
+	return cur
+}
